@@ -44,6 +44,29 @@ def run : P String := do
         let i := ((rows.zipIdx.find? fun ((_, r'), _) => r'.obs.x.toBits == o.x.toBits && r'.obs.y.toBits == o.y.toBits && r'.obs.z.toBits == o.z.toBits).map (·.2)).getD 0
         bits.getD (m * n + i) 0 == 1
       pure (" ".intercalate ((bhjmTrimesh f meshOf insideFn rs).map out))
+  | "batchio" => do
+      -- `batch` with the keyword in_out as getBH_level1 passes it (Model/InOut.lean)
+      let io ← inout
+      -- the whole BHJM_magnet_trimesh in IEEE double: field, n rows (mesh id, faces, observer, polarization), K x n inside bits
+      let f ← field
+      let n ← nat
+      let k ← nat
+      let rows ← many n (do
+        let m ← nat
+        let nf ← nat
+        let fs ← many nf (do pure ((← v3), (← v3), (← v3)))
+        let o ← v3
+        let p ← v3
+        pure (m, ({ faces := fs, obs := o, pol := p } : MeshRow Float)))
+      let bits ← many (k * n) nat
+      let rs := rows.map (·.2)
+      -- observers are identified by their row index through the bit table: look the row up by its position
+      let idOf (r : MeshRow Float) : Nat := ((rows.zipIdx.find? fun ((_, r'), _) => r'.obs.x.toBits == r.obs.x.toBits && r'.obs.y.toBits == r.obs.y.toBits && r'.obs.z.toBits == r.obs.z.toBits).map (·.2)).getD 0
+      let meshOf (r : MeshRow Float) : Nat := (rows.getD (idOf r) (0, r)).1
+      let insideFn (m : Nat) (o : V3 Float) : Bool :=
+        let i := ((rows.zipIdx.find? fun ((_, r'), _) => r'.obs.x.toBits == o.x.toBits && r'.obs.y.toBits == o.y.toBits && r'.obs.z.toBits == o.z.toBits).map (·.2)).getD 0
+        bits.getD (m * n + i) 0 == 1
+      pure (match trimeshL1 io f meshOf insideFn rs with | some vs => " ".intercalate (vs.map out) | none => "unmodelled")
   | "inside" => do
       -- mask_inside_trimesh for one observer in IEEE double: <nfaces> <faces…> <x>
       let nf ← nat
